@@ -42,7 +42,8 @@ Record event := mkEv { v_tag : nat; v_val : nat; v_maps : list nat }.
 (* ---------- resumable futures ---------- *)
 (* one ShellRequest inside a join! / select!: not yet sent | waiting | fused-dead | finished with a value *)
 Inductive subreq := SQ (sent dead : bool) (tg v ch : nat) | SDone (m : nat)
-| SL (sent : bool) (tg v ch : nat).   (* a legacy-capability ShellRequest: waker refreshed on every poll, never dead *)
+| SL (sent : bool) (tg v ch : nat)
+| SJ (u : nat).                       (* a JoinHandle on the task whose flag is u, polled inside join! *)   (* a legacy-capability ShellRequest: waker refreshed on every poll, never dead *)
 Inductive leaf :=
 | LRun (t : task)
 | LReq (sent dead : bool) (tg v ch x : nat) (k : task)
@@ -210,7 +211,7 @@ Definition was_aborted (cid : nat) (H : heap) : bool :=
 
 (* ---------- drop glue ---------- *)
 Definition sub_drop (q : subreq) (H : heap) : heap :=
-  match q with SQ _ dead _ _ ch => if dead then H else chan_drop_rx ch H | SDone _ => H | SL _ _ _ ch => chan_drop_rx ch H end.
+  match q with SQ _ dead _ _ ch => if dead then H else chan_drop_rx ch H | SDone _ => H | SL _ _ _ ch => chan_drop_rx ch H | SJ _ => H end.
 
 Definition DF := 64.
 Definition kill_flag u (H : heap) := utf u (fun tf => mkTF (tf_fin tf) (tf_abort tf) false (tf_joinw tf)) H.
@@ -265,6 +266,12 @@ Definition sub_poll (c : nat) (w : waker) (q : subreq) (H : heap) : subreq * hea
       | (Some m, _, _, H') => (SDone m, H')
       | (None, s', d', H') => (SQ s' d' tg v ch, H')
       end
+  | SJ u =>
+      (* JoinHandle::poll: finished (or gone) -> ready; else hand this poll's waker to the task *)
+      if tf_fin (gtf u H) then (SDone 0, H)
+      else if tf_alive (gtf u H)
+        then (SJ u, utf u (fun tf => mkTF (tf_fin tf) (tf_abort tf) (tf_alive tf) (tf_joinw tf ++ [w])) H)
+        else (SDone 0, note B_JoinDead H)
   end.
 
 Inductive tstate := Missing | Suspended | Completed | Cancelled.
@@ -318,6 +325,9 @@ Definition poll_body (F : rtfuns) (c : nat) (w : waker) (fs : fstate) (H : heap)
     | TBothL tg1 e1 x1 tg2 e2 x2 k =>
         let (ch1, H1) := new_chan H in let (ch2, H2) := new_chan H1 in
         rpoll F c w (mkF en (LBoth (SL false tg1 (eval en e1) ch1) (SQ false false tg2 (eval en e2) ch2) x1 x2 k) st) H2
+    | TBothJ h tg e x k =>
+        let (ch, H1) := new_chan H in
+        rpoll F c w (mkF en (LBoth (SJ (getd 0 h en)) (SQ false false tg (eval en e) ch) 23 x k) st) H1
     | TRace tg1 e1 tg2 e2 x k =>
         let (ch1, H1) := new_chan H in let (ch2, H2) := new_chan H1 in
         rpoll F c w (mkF en (LRace (SQ false false tg1 (eval en e1) ch1) (SQ false false tg2 (eval en e2) ch2) x k) st) H2
@@ -376,11 +386,11 @@ Definition poll_body (F : rtfuns) (c : nat) (w : waker) (fs : fstate) (H : heap)
     let (a', H1) := sub_poll c w a H in
     match a' with
     | SDone m => go_env (setv x m en) k (sub_drop b H1)
-    | SQ _ _ _ _ _ | SL _ _ _ _ =>
+    | SQ _ _ _ _ _ | SL _ _ _ _ | SJ _ =>
       let (b', H2) := sub_poll c w b H1 in
       match b' with
       | SDone m => go_env (setv x m en) k (sub_drop a' H2)
-      | SQ _ _ _ _ _ | SL _ _ _ _ => Some (Pend (mkF en (LRace a' b' x k) st), H2)
+      | SQ _ _ _ _ _ | SL _ _ _ _ | SJ _ => Some (Pend (mkF en (LRace a' b' x k) st), H2)
       end
     end
   | LHost cid meff mev k =>
